@@ -32,6 +32,8 @@
 #include "inc/Face.h"
 #include "inc/GlyphCache.h"
 #include "inc/GlyphFace.h"
+#include "inc/FileFace.h"
+#include <unistd.h>
 #undef private
 #undef protected
 #include "hcommon.h"
@@ -222,6 +224,7 @@ static void run_api(const std::vector<std::string> &f) {
                 } else r = "nofeat";
             }
             else if (op == "info") r = "info=" + face_info(face);
+            else if (op == "sup" && a.size() >= 2) { r = "sup="; std::istringstream is(a[1]); std::string x; while (std::getline(is, x, ',')) r += gr_face_is_char_supported(face, (gr_uint32)strtoul(x.c_str(), 0, 16), 0) ? "1" : "0"; }
             else if ((op == "gl" && a.size() >= 2) || op == "gltab") {
                 // GlyphCache::glyph(gid) directly (C08/C09/C10 component correspondence with Model/MemoModel.v): a digest of what it returns
                 const graphite2::GlyphCache &gc = static_cast<const graphite2::Face *>(face)->glyphs();
@@ -321,6 +324,30 @@ static void run_table(const std::vector<std::string> &f) {
     printf("%s | END lent=%s leak=%d%s\n", out.c_str(), left.c_str(), leak, src.misuse ? " MISUSE" : "");
 }
 
+// ------------------------------------------------------------------ file face on arbitrary file bytes (C01 / Model/SfntModel.v)
+static void run_sfnt(const std::vector<std::string> &f) {
+    using namespace graphite2;
+    std::vector<uint8_t> bytes = unhex(f[2]);
+    char path[256]; snprintf(path, sizeof path, "%s/sfnt_%d.bin", f[3].c_str(), (int)getpid());
+    FILE *fp = fopen(path, "wb"); if (fp) { if (!bytes.empty()) fwrite(bytes.data(), 1, bytes.size(), fp); fclose(fp); }
+    std::string out = f[0] + " SFNT";
+    {
+        FileFace ff(path);
+        bool valid = bool(ff);
+        out += valid ? " open" : " closed";
+        for (size_t k = 4; k < f.size(); k++) {
+            size_t len = 0;
+            const void *t = valid ? (*FileFace::ops.get_table)(&ff, (unsigned)strtoul(f[k].c_str(), 0, 16), &len) : 0;
+            if (!t) { out += " NULL"; continue; }
+            unsigned long h = 1469598103UL; for (size_t i = 0; i < len; i++) h = (h ^ ((const uint8_t *)t)[i]) * 16777619UL % 4294967296UL;
+            out += " " + std::to_string(len) + ":" + std::to_string(h);
+            (*FileFace::ops.release_table)(&ff, t);
+        }
+    }
+    unlink(path);
+    printf("%s\n", out.c_str());
+}
+
 int main(int argc, char **argv) {
     repo = argc > 1 ? argv[1] : "/repo";
     std::string line;
@@ -329,6 +356,7 @@ int main(int argc, char **argv) {
         case_begin(f.empty() ? std::string("?") : f[0]);
         if (f.size() >= 6 && f[1] == "api") run_api(f);
         else if (f.size() >= 4 && f[1] == "table") run_table(f);
+        else if (f.size() >= 4 && f[1] == "sfnt") run_sfnt(f);
         else printf("%s BAD\n", f.empty() ? "?" : f[0].c_str());
         fflush(stdout); case_end();
     }
